@@ -33,3 +33,78 @@ package tree
 //@   ensures[C07] text == TXT(r, old(position), old(text))
 //@   ensures[C07] alog == LOG(r, old(position), old(alog), old(text))
 //@   modifies var position, tokenIndex, maxToken, text, alog
+
+// ---------------------------------------------------------------------------------------------
+// Bodies of the runtime functions of a -noast parser (verified on the carrier grammar generated with -noast):
+// add, matchDot above, and reset / parse / translatePositions / Error below. The last two are the same text as in the
+// AST runtime and carry the same contracts.
+
+//@ closure Init.reset
+//@   requires p != nil
+//@   ensures[C07,C12] position == 0 && tokenIndex == 0 && maxToken == mk(token, 0, 0, 0)
+//@   ensures[C07,C12] soff(p.buffer) == 0 && len(p.buffer) == rlen(p.Buffer) + 1 && buffer == p.buffer
+//@   ensures[C07,C12,C13] forall(i, imp(0 <= i && i < rlen(p.Buffer), p.buffer[i] == runeAt(p.Buffer, i)))
+//@   ensures[C07,C12,C13] p.buffer[rlen(p.Buffer)] == 1114112
+//@   modifies var position, tokenIndex, maxToken, buffer
+//@   modifies $T.buffer at r where r == p
+//@   modifies Elems.Int at b where false
+
+//@ closure Init.parse
+//@   requires RT() && position == 0 && tokenIndex == 0 && maxToken == mk(token, 0, 0, 0)
+//@   requires soff(rule) == 0 && imp(len(rule) > 0, 0 < rule[0] && rule[0] < len(p.rules))
+//@   let r = ite(len(rule) > 0, rule[0], 1)
+//@   ensures[C07] (result == nil) == OK(r, 0)
+//@   ensures[C07] text == TXT(r, 0, old(text)) && alog == LOG(r, 0, old(alog), old(text))
+//@   ensures[C07,C11] imp(result != nil, as(result, parseError).maxToken == maxToken && as(result, parseError).p == p && fresh(result))
+//@   ensures[C07,C11] imp(result != nil, as(result, parseError).maxToken.begin <= as(result, parseError).maxToken.end && as(result, parseError).maxToken.end <= n)
+//@   modifies var position, tokenIndex, maxToken, text, alog
+//@   modifies parseError.p, parseError.maxToken at r where false
+
+// ---------------------------------------------------------------------------------------------
+// Error positions. lineOf(a,i) / colOf(a,i): 1-based line and column of offset i in the rune array a
+// (definitions by recursion on i, unfolded at the terms marked by lcStep).
+
+//@ specfunc lineOf(a runes, i int) int
+//@ specfunc colOf(a runes, i int) int
+//@ specfunc lcStep(a runes, i int) bool
+//@ specfunc sortPerm(b int, i int) int
+//@ specfunc sortInv(b int, i int) int
+//@ smt[lineOf] (assert (forall ((a (Array Int Int))) (! (and (= (lineOf a 0) 1) (= (colOf a 0) 1)) :pattern ((lineOf a 0)) :pattern ((colOf a 0)))))
+//@ smt[lineOf] (assert (forall ((a (Array Int Int)) (i Int)) (! (lcStep a i) :pattern ((lcStep a i)))))
+//@ smt[lineOf] (assert (forall ((a (Array Int Int)) (i Int)) (! (=> (>= i 0) (and (= (lineOf a (+ i 1)) (+ (lineOf a i) (ite (= (select a i) 10) 1 0))) (= (colOf a (+ i 1)) (ite (= (select a i) 10) 1 (+ (colOf a i) 1))))) :pattern ((lcStep a i)))))
+
+//@ func translatePositions
+//@   requires len(positions) >= 1 && soff(buffer) == 0 && soff(positions) == 0 && sbase(buffer) != sbase(positions)
+//@   requires forall(q, imp(0 <= q && q < len(positions), 0 <= positions[q] && positions[q] < len(buffer)))
+//@   ensures  forall(q, imp(0 <= q && q < len(positions), mapHas(result, old(positions[q]))
+//@              && mapGet(result, old(positions[q])) == mk(textPosition, lineOf(elems(buffer), old(positions[q])), colOf(elems(buffer), old(positions[q])))))
+//@   modifies Elems.Int at b where b == sbase(positions)
+//@   modifies MapDom.Int!DT_textPosition, MapVal.Int!DT_textPosition at b where false
+//@   loop 0 invariant 0 <= posIdx && posIdx < length && length == len(positions) && idx() >= 0
+//@   loop 0 invariant lcStep(elems(buffer), idx()) && line == lineOf(elems(buffer), idx()) && symbol == colOf(elems(buffer), idx()) - 1
+//@   loop 0 invariant elems(positions) == entry(elems(positions)) && elems(buffer) == old(elems(buffer)) && allocated(translations)
+//@   loop 0 invariant forall(j, imp(0 <= j && j < posIdx, positions[j] < idx()))
+//@   loop 0 invariant forall(j, imp(0 <= j && j < posIdx, mapHas(translations, positions[j])))
+//@   loop 0 invariant forall(j, imp(0 <= j && j < posIdx, mapGet(translations, positions[j]) == mk(textPosition, lineOf(elems(buffer), positions[j]), colOf(elems(buffer), positions[j]))))
+//@   loop 0 invariant positions[posIdx] >= idx() && fresh(translations)
+//@   loop 0 invariant frameExcept("MapDom.Int!DT_textPosition", translations) && frameExcept("MapVal.Int!DT_textPosition", translations)
+//@   loop 0 invariant forall(a, b, imp(0 <= a && a <= b && b < length, positions[a] <= positions[b]))
+//@   loop 1 invariant posIdx >= 1 && posIdx <= length && length == len(positions) && elems(positions) == entry(elems(positions))
+//@   loop 1 invariant forall(j, imp(0 <= j && j < posIdx, positions[j] <= i))
+//@   loop 1 invariant posIdx >= entry(posIdx) && entry(posIdx) >= 1 && positions[entry(posIdx) - 1] == i
+//@   loop 1 invariant forall(j, imp(entry(posIdx) - 1 <= j && j < posIdx, positions[j] == i))
+//@   loop 1 invariant mapHas(translations, i) && translations == entry(translations)
+//@   loop 1 invariant forall(k, mapHas(translations, k) == entry(mapHas(translations, k))) && forall(k, mapGet(translations, k) == entry(mapGet(translations, k)))
+
+//@ specfunc quoteOf(s string) string
+
+//@ func parseError.Error
+//@   requires e != nil && e.p != nil && soff(e.p.buffer) == 0
+//@   requires e.maxToken.begin <= e.maxToken.end && e.maxToken.end < len(e.p.buffer) && e.maxToken.pegRule < len(rul3s)
+//@   modifies Elems.Int, Elems.DT_token, MapDom.Int!DT_textPosition, MapVal.Int!DT_textPosition at b where false
+//@   loop 0 invariant p == 2*idx() && 0 <= idx() && idx() <= len(tokenSlice) && len(tokenSlice) == 1 && len(positions) == 2 && soff(positions) == 0 && soff(tokenSlice) == 0
+//@   loop 0 invariant fresh(sbase(positions)) && fresh(sbase(tokenSlice)) && sbase(positions) != sbase(tokenSlice) && tokenSlice[0] == e.maxToken
+//@   loop 0 invariant forall(j, imp(0 <= j && j < 2, 0 <= positions[j] && positions[j] < len(e.p.buffer)))
+//@   loop 0 invariant frameExcept("Elems.Int", sbase(positions))
+//@   loop 1 invariant idx() >= 0 && len(tokenSlice) == 1 && soff(tokenSlice) == 0 && tokenSlice[0] == e.maxToken
+
